@@ -184,6 +184,20 @@ def o_paste(case, T):
     isf = dtype.startswith("float")
     fill = np.nan if isf else (False if dtype == "bool" else 0)
     A_img = np.full((Hd, Wd), fill, dtype=dtype)
+    # the regions are slices a caller applies as they are: do exactly that (numpy semantics - a negative or reversed
+    # bound is not "empty" to numpy) before any reasoning about them
+    try:
+        lit = np.full((Hd, Wd), fill, dtype=dtype)
+        blk = src_px[info.roi_src]
+        if e < 0:
+            blk = blk[::-1, :]
+        if a < 0:
+            blk = blk[:, ::-1]
+        lit[info.roi_dst] = blk
+    except ValueError as ex:
+        raise Violation("paste_ok, but src[roi_src] does not fit dst[roi_dst]: roi_src=%r roi_dst=%r (%s)" % (info.roi_src, info.roi_dst, str(ex)[:80]))
+    for sl_, n_ in zip((*info.roi_src, *info.roi_dst), (Hs, Ws, Hd, Wd)):
+        require(0 <= sl_.start <= n_ and 0 <= sl_.stop <= n_, "paste_ok with a region bound outside the image: roi_src=%r roi_dst=%r (images %r, %r)", info.roi_src, info.roi_dst, (Hs, Ws), (Hd, Wd))
     if not empty:
         require((sy1 - sy0, sx1 - sx0) == (dy1 - dy0, dx1 - dx0), "paste regions differ in shape: roi_src %r roi_dst %r", info.roi_src, info.roi_dst)
         block = src_px[sy0:sy1, sx0:sx1]
